@@ -128,16 +128,74 @@ def main(tier, seed, replay=None):
                         run.violation("the weighted problem (%s weights) and %s differ at step %d (%s)" % (kind, label, k, a["op"]),
                                       {"weighted": cw, "other_label": label, "step": k, "weighted_shows": a["v"], "other_shows": b["v"]})
                         break
+    # reduced chi^2 and covariance: the weighted single-rhs problem and its row-scaled twin, through fit_with_statistics
+    from . import statsrun
+    spairs = []
+    for i in range(12 if tier == "quick" else 200):
+        M, P = [(2, 1), (1, 1), (3, 1), (1, 2)][i % 4]
+        N = M + P + rng.randint(3, 9)
+        c = statsrun.gen_stats_case(rng, M, P, N, scalar="f64", weights="none", noise=0.1, quant=None, probs=[0.9])
+        kind = ["pos", "neg", "spread", "const", "zeros"][i % 5]
+        w = [round_to(v, "f64") for v in weights(rng, kind, N)]
+        if kind == "zeros":
+            w = [v if k >= 2 or N - 2 <= M + P else 0.0 for k, v in enumerate(w)] if N - 2 > M + P else [abs(v) + 0.5 for v in w]
+        if kind == "spread":
+            w = [2.0 ** rng.randint(-3, 3) for _ in range(N)]
+        cw = copy.deepcopy(c)
+        cw["build"].append(["weights", [hx(v, "f64") for v in w]])
+        tw = scaled_twin(cw, w)
+        spairs.append((cw, tw, kind))
+    scases = []
+    for cw, tw, kind in spairs:
+        scases += [cw, tw]
+    for i, c in enumerate(scases):
+        c["id"] = 7000 + i
+    sres = run_harness(binp, "scenario", scases, workdir, timeout_ms=30000, tag="stats")
+    nstat = 0
+    nskip_stats = 0
+    for k, (cw, tw, kind) in enumerate(spairs):
+        rw, rt = sres[2 * k], sres[2 * k + 1]
+        if rw.get("steps") is None or rt.get("steps") is None:
+            run.violation("fit_with_statistics panicked / hung on a weighted problem or its row-scaled twin", {"weighted": cw, "rw": rw, "rt": rt})
+            continue
+        fw, ft = rw["steps"][1]["v"], rt["steps"][1]["v"]
+        if fw["ok"] != ft["ok"]:
+            run.violation("fit_with_statistics succeeds for one of (weighted problem, row-scaled twin) only (%s weights)" % kind,
+                          {"weighted": cw, "weighted_result": fw, "twin_result": ft})
+            continue
+        if not fw["ok"]:
+            continue
+        nstat += 1
+        sw, st = fw["stats"], ft["stats"]
+        a, b = unhx(sw["chi2"]), unhx(st["chi2"])
+        if abs(a - b) > 1e-9 * max(abs(a), abs(b)):
+            run.violation("reduced chi^2 of the weighted problem (%r) and of the row-scaled unweighted problem (%r) differ (%s weights)" % (a, b, kind),
+                          {"weighted": cw, "chi2_weighted": a, "chi2_twin": b})
+            continue
+        dg = [abs(unhx(sw["cov"]["cols"][j][j])) for j in range(sw["cov"]["c"])]
+        if min(dg) <= 0 or max(dg) / min(dg) > 1e6:
+            nstat -= 1
+            nskip_stats += 1      # ill-conditioned normal matrix: the two inversions legitimately differ by u * kappa
+            continue
+        ca = [unhx(h) for col in sw["cov"]["cols"] for h in col]
+        cb = [unhx(h) for col in st["cov"]["cols"] for h in col]
+        nrm = max(max(abs(v) for v in cb), 1e-300)
+        if max(abs(x - y) for x, y in zip(ca, cb)) > 1e-7 * nrm:
+            run.violation("covariance of the weighted problem and of the row-scaled unweighted problem differ (%s weights)" % kind,
+                          {"weighted": cw, "cov_weighted": sw["cov"], "cov_twin": st["cov"]})
     run.coverage.update({
+        "statistics_pairs_compared": nstat, "statistics_pairs_skipped_ill_conditioned": nskip_stats,
         "evaluations": len(cases), "distinct_nontrivial": len(pairs),
         "rule": "for each random problem a weight vector of one of the kinds positive / with zeros / with negatives / spread 2^-12..2^12 / one "
                 "dominant / all ones; the weighted problem is run next to the unweighted problem whose basis functions, derivatives and "
                 "observations are row-scaled by the same floats: coefficients, residuals, Jacobian and (every second case) the whole fit "
                 "(termination, evaluations, parameters, coefficients, objective) must be bit-identical; unit weights vs no weights "
                 "bit-identical; zero weights vs garbage data in those samples identical up to the sign of zero; every weighted state is "
-                "also compared with the exact specification (coefficients, residuals, Jacobian)",
+                "also compared with the exact specification (coefficients, residuals, Jacobian); reduced chi^2 and covariance of fit_with_statistics "
+                "on weighted problems vs their row-scaled twins",
         "weight_kinds": kinds, "bit_exact_comparisons": nexact, "state_code_histogram": {str(k): v for k, v in hist.items()},
         "skipped_ill_conditioned": nskip})
     run.samples = [{"kind": kind, "ctor": cw["ctor"], "scalar": cw["scalar"], "meta": cw["meta"]} for cw, tw, t3, kind in pairs[:3]]
-    run.assumptions = ["reduced chi^2 and covariance of weighted vs row-scaled problems are compared in the C12/C13 checks (within tolerance)"]
+    run.assumptions = ["reduced chi^2 (1e-9) and covariance (1e-7 of the largest entry) of weighted vs row-scaled problems are compared within tolerance: "
+                       "the two compute W*(D_k c) and (W D_k) c in different orders"]
     return run.finish()
